@@ -24,7 +24,8 @@ from vlib.pat import Pat
 
 A = 'phylib/io/array.py'
 M = 'phylib/io/model.py'
-FLOOR = 10
+FLOOR = 6          # decided obligations below this = the analysis lost its footing (exit 2); clean tree: 16
+RULES = ('C17.D1', 'C17.K1', 'C17.S1', 'C17.S2', 'C17.U1')          # every obligation group must report (holds / violated / undecided): a group that vanishes silently is an analysis error
 EXPLANATION = ('proto/sym engines: SpikeSelector.__call__ is walked for every combination of flags and every outcome of its tests; '
                'the term stored for each cluster is parsed into (source, filters) and compared with the filters the specification '
                'demands under the same path facts; the stride formula and the chunk-membership test are compared as normal forms')
@@ -65,6 +66,13 @@ def parse_selection(t, selfterm, subset_p):
                         probs.append('the chunk mask is not computed from self.spike_times[<these spikes>] (%s)' % show(tt)[:60])
                     if kept != T('attr', selfterm, 'chunks_kept'):
                         probs.append('the chunk mask uses %s, not the kept chunks' % show(kept)[:40])
+            # the mask of ALL spikes, read at these spikes: _times_in_chunks is elementwise, so mask_all[ids] = mask(times[ids])
+            if not ok and is_t(m) and m[1] == 'index' and is_t(m[2]) and m[2][1] == 'call' and m[2][2].endswith('_times_in_chunks') and len(m[2][4:]) == 2:
+                tt, kept = m[2][4:]
+                if tt == T('attr', selfterm, 'spike_times') and kept == T('attr', selfterm, 'chunks_kept') and strip(m[3]) == strip(base):
+                    ok = True
+                elif tt == T('attr', selfterm, 'spike_times') and kept == T('attr', selfterm, 'chunks_kept'):
+                    probs.append('the chunk mask of all spikes is read at other spikes (%s) than the ones it filters (%s)' % (show(strip(m[3]))[:60], show(strip(base))[:60]))
             if not ok and not probs:
                 probs.append('spikes are indexed with %s, which is not the kept-chunk mask' % show(m)[:60])
             filters.append('chunks')
@@ -208,23 +216,37 @@ def d1_call(ctx):
                   'len(eligible) > n); result = flatten of the per-cluster dictionary (%d paths over 4 flag combinations)' % npaths, '__call__')
     ctx.check(ok_empty, 'C17.K1', fi, '__call__', 'an empty cluster request returns an empty array and selects nothing',
               'an empty cluster request does not return an empty array')
-    # flatten: unique(concatenate(values))
+    # flatten: EVERY return is unique(concatenate(values)) - a per-cluster selection drawn by np.random.choice is in random order, so returning one of the
+    # values as it is (a shortcut for a single cluster) breaks "strictly increasing"
     rets = [r for r in flat.returns() if r.value is not None]
-    okf = False
-    if rets:
-        e = flat.expand(rets[-1].value)
-        t = unparse(e)
-        inner = None
+    dp = flat.params[0]
+    verdicts = []
+    for r in rets:
+        e = flat.expand(r.value)
         cur = e
-        while isinstance(cur, ast.Call) and q.method_name(cur) in ('astype', 'copy'):
-            cur = cur.func.value
-        if isinstance(cur, ast.Call) and dotted(cur.func) == 'np.unique' and len(cur.args) == 1:
-            c2 = cur.args[0]
-            if isinstance(c2, ast.Call) and dotted(c2.func) in ('np.concatenate', 'np.hstack') and c2.args:
-                src = unparse(c2.args[0])
-                okf = src in ('list(%s.values())' % flat.params[0], 'tuple(%s.values())' % flat.params[0], '[v for v in %s.values()]' % flat.params[0])
-    ctx.check(okf, 'C17.K1', flat, rets[-1] if rets else '_flatten_per_cluster', 'the flattened selection is np.unique(np.concatenate(values)): strictly increasing, no duplicates',
-              'the flattened selection is not np.unique(np.concatenate(all per-cluster selections))')
+        while isinstance(cur, ast.Call) and ((q.method_name(cur) in ('astype', 'copy') and isinstance(cur.func, ast.Attribute) and dotted(cur.func) not in ('np.copy',)) or
+                                             (dotted(cur.func) in ('np.asarray', 'np.array', 'np.ascontiguousarray') and cur.args)):
+            cur = cur.func.value if isinstance(cur.func, ast.Attribute) and dotted(cur.func) not in ('np.asarray', 'np.array', 'np.ascontiguousarray') else cur.args[0]
+        P_ = Pat()
+        if P_.any(['np.unique(np.concatenate(E_v))', 'np.unique(np.hstack(E_v))', 'np.unique(np.concatenate(E_v, REST))'], cur):
+            vals = cur.args[0].args[0]
+            if Pat().any(['list(%s.values())' % dp, 'tuple(%s.values())' % dp, '[V_x for V_x in %s.values()]' % dp, '[%s[V_k] for V_k in %s]' % (dp, dp)], vals):
+                verdicts.append(('good', r))
+            else:
+                verdicts.append(('unknown', r))
+        elif Pat().any(['np.sort(np.concatenate(E_v))', 'np.concatenate(E_v)', 'np.hstack(E_v)', 'E_l[0]', 'E_l[-1]', 'next(iter(E_l))'], cur) or \
+                (isinstance(cur, ast.Subscript) and not isinstance(cur.slice, ast.Slice)):
+            verdicts.append(('bad', r))           # no de-duplication / no sorting: one stored value or a plain concatenation
+        else:
+            verdicts.append(('unknown', r))
+    bad = [r for k_, r in verdicts if k_ == 'bad']
+    if bad:
+        ctx.violated('C17.K1', flat, bad[0], 'the flattened selection `%s` is not np.unique(np.concatenate(all per-cluster selections)): a per-cluster selection drawn at random is '
+                     'returned in random order' % unparse(bad[0].value)[:80])
+    elif verdicts and all(k_ == 'good' for k_, r in verdicts):
+        ctx.holds('C17.K1', flat, 'the flattened selection is np.unique(np.concatenate(values)) on every return: strictly increasing, no duplicates', verdicts[-1][1])
+    else:
+        ctx.undecided('C17.K1', flat, 'a return of _flatten_per_cluster was not recognised')
 
 
 def _choice_arg(sel):
